@@ -636,3 +636,961 @@ Proof.
     + destruct (typed_error_class _ _ _ _ _ _ _ _ Ht Hd E) as [->| ->]; [left | right]; reflexivity.
   - pose proof (enc_no_panic e w ps_empty fuel scope t v) as Hp. rewrite E in Hp. discriminate.
 Qed.
+
+(* ==================================================================================================================== *)
+(* 6. Decoding: enum and fixed                                                                                           *)
+(* ==================================================================================================================== *)
+Lemma index_of_spec s l : forall j,
+  match index_of s l j with
+  | Some i => exists i0, i = j + i0 /\ nth_error l i0 = Some s /\ forall m, m < i0 -> nth_error l m <> Some s
+  | None => ~ In s l
+  end.
+Proof.
+  induction l as [|y r IH]; intros j; simpl; [tauto|].
+  destruct (bytes_eqb s y) eqn:E.
+  - apply bytes_eqb_eq in E. subst y. exists 0. split; [lia|]. split; [reflexivity|]. intros m Hm; lia.
+  - apply bytes_eqb_neq in E. specialize (IH (S j)). destruct (index_of s r (S j)) as [i|].
+    + destruct IH as [i0 [Hi [Hn Hf]]]. exists (S i0). split; [lia|]. split; [exact Hn|].
+      intros [|m] Hm; simpl; [congruence | apply Hf; lia].
+    + intros [H|H]; [congruence | contradiction].
+Qed.
+
+(* the enum reader: the FIRST declared symbol equal to the text, else the unknown constant 0 - never another symbol *)
+Lemma enum_value_spec syms s :
+  (~ In s syms /\ enum_value syms s = VEnum 0) \/
+  (exists i, enum_value syms s = VEnum (S i) /\ nth_error syms i = Some s /\ forall m, m < i -> nth_error syms m <> Some s).
+Proof.
+  unfold enum_value. pose proof (index_of_spec s syms 0) as H. destruct (index_of s syms 0) as [i|].
+  - destruct H as [i0 [-> [Hn Hf]]]. right. exists i0. auto.
+  - left. auto.
+Qed.
+
+Lemma enum_value_bound syms s : exists k, enum_value syms s = VEnum k /\ k <= length syms.
+Proof.
+  destruct (enum_value_spec syms s) as [[_ ->]|[i [-> [Hn _]]]]; [exists 0; split; [reflexivity | lia]|].
+  exists (S i). split; [reflexivity|]. assert (i < length syms) by (apply nth_error_Some; congruence). lia.
+Qed.
+
+Lemma nth_error_In_first {A} (l : list A) s : In s l -> exists i, nth_error l i = Some s.
+Proof. apply In_nth_error. Qed.
+
+Theorem unknown_enum_symbol_J : forall e w x ig pF f top syms s tr,
+  (~ In s syms -> decJ e w x ig pF (S f) top (TEnum syms) (JStr s) tr = Ok (VEnum 0, tr)) /\
+  (In s syms -> exists i, decJ e w x ig pF (S f) top (TEnum syms) (JStr s) tr = Ok (VEnum (S i), tr) /\
+                          nth_error syms i = Some s /\ forall m, m < i -> nth_error syms m <> Some s).
+Proof.
+  intros. rewrite decJ_unfold. simpl.
+  destruct (enum_value_spec syms s) as [[Hn ->]|[i [-> [Hi Hf]]]]; split; intros H.
+  - reflexivity.
+  - contradiction.
+  - exfalso. apply H. eapply nth_error_In; exact Hi.
+  - exists i. auto.
+Qed.
+
+(* anything but a string is rejected at an enum *)
+Theorem enum_needs_string_J : forall e w x ig pF f top syms d tr r,
+  decJ e w x ig pF (S f) top (TEnum syms) d tr = Ok r -> exists s, d = JStr s /\ r = (enum_value syms s, tr).
+Proof.
+  intros until r. rewrite decJ_unfold. simpl. destruct d; simpl; try discriminate. intros H; inversion H. eexists; split; reflexivity.
+Qed.
+
+(* fixed: the text is decoded one code point (0..255) per byte and must have exactly the declared size *)
+Theorem fixed_size_enforced_J : forall e w x ig pF f top n d tr,
+  decJ e w x ig pF (S f) top (TFixed n) d tr =
+  match d with
+  | JStr s => match latin1_decode (S (length s)) s with
+              | Some b => if Nat.eqb (length b) n then Ok (VFixed b, tr) else Err EFixedSize
+              | None => Err EDeser
+              end
+  | _ => Err EDeser
+  end.
+Proof.
+  intros. rewrite decJ_unfold. unfold stepJ, jprim. destruct d; try reflexivity.
+  destruct (latin1_decode (S (length s)) s); reflexivity.
+Qed.
+
+Theorem fixed_ok_size_J : forall e w x ig pF f top n d tr v tr',
+  decJ e w x ig pF (S f) top (TFixed n) d tr = Ok (v, tr') ->
+  exists s b, d = JStr s /\ latin1_decode (S (length s)) s = Some b /\ length b = n /\ v = VFixed b /\ tr' = tr.
+Proof.
+  intros until tr'. rewrite fixed_size_enforced_J. destruct d; try discriminate.
+  destruct (latin1_decode (S (length s)) s) as [b|] eqn:E; [|discriminate].
+  destruct (Nat.eqb (length b) n) eqn:L; [|discriminate]. apply Nat.eqb_eq in L.
+  intros H; inversion H; subst. exists s, b. auto.
+Qed.
+
+(* ==================================================================================================================== *)
+(* 7. Decoding: the union reader, by the number of non-null entries of the object                                        *)
+(* ==================================================================================================================== *)
+Definition is_jnull (d : jdoc) : bool := match d with JNull => true | _ => false end.
+(* the entries the reader looks at: a null entry is skipped *)
+Definition live (es : list (bytes * jdoc)) : list (bytes * jdoc) := filter (fun kx => negb (is_jnull (snd kx))) es.
+
+Lemma live_cons_live k xd r : is_jnull xd = false -> live ((k, xd) :: r) = (k, xd) :: live r.
+Proof. intros H. unfold live. simpl. rewrite H. reflexivity. Qed.
+Lemma live_cons_null k r : live ((k, JNull) :: r) = live r.
+Proof. reflexivity. Qed.
+
+Definition none_members (ms : list (bytes * ty)) : list (option value) := map (fun _ => None) ms.
+
+Lemma set_nth_nth {A} (l : list A) j y : j < length l ->
+  forall i, nth_error (set_nth j y l) i = if Nat.eqb i j then Some y else nth_error l i.
+Proof.
+  revert j. induction l as [|a r IH]; intros j Hj i; [simpl in Hj; lia|].
+  destruct j as [|j]; destruct i as [|i]; simpl; try reflexivity. apply IH. simpl in Hj. lia.
+Qed.
+
+Lemma set_nth_nth' {A} (l : list A) j y i :
+  nth_error (set_nth j y l) i = if Nat.eqb i j then (match nth_error l i with Some _ => Some y | None => None end) else nth_error l i.
+Proof.
+  revert j i. induction l as [|a r IH]; intros j i.
+  - destruct j; destruct i; simpl; try reflexivity. destruct (Nat.eqb i j); reflexivity.
+  - destruct j as [|j]; destruct i as [|i]; simpl; try reflexivity. apply IH.
+Qed.
+
+Lemma set_nth_length {A} (l : list A) j y : length (set_nth j y l) = length l.
+Proof. revert j. induction l as [|a r IH]; intros [|j]; simpl; auto. Qed.
+
+Lemma count_set_none (ms : list (bytes * ty)) : count_set (none_members ms) = 0.
+Proof. induction ms; simpl; auto. Qed.
+
+Lemma count_set_set_nth {A} (l : list (option A)) j y :
+  j < length l -> count_set l = 0 -> count_set (set_nth j (Some y) l) = 1.
+Proof.
+  revert j. induction l as [|[a|] r IH]; intros j Hj C; simpl in *; try lia; try discriminate.
+  destruct j as [|j]; simpl; [rewrite C; reflexivity|]. apply IH; [lia | exact C].
+Qed.
+
+(* exactly member j is set in the struct the reader builds for one entry *)
+Lemma single_member ms j (v : value) : j < length ms ->
+  count_set (set_nth j (Some v) (none_members ms)) = 1 /\
+  forall i, nth_error (set_nth j (Some v) (none_members ms)) i =
+            if Nat.eqb i j then Some (Some v) else if Nat.ltb i (length ms) then Some None else None.
+Proof.
+  intros Hj. split.
+  - apply count_set_set_nth; [unfold none_members; rewrite map_length; exact Hj | apply count_set_none].
+  - intros i. rewrite set_nth_nth by (unfold none_members; rewrite map_length; exact Hj).
+    destruct (Nat.eqb i j); [reflexivity|]. unfold none_members.
+    destruct (Nat.ltb i (length ms)) eqn:L.
+    + apply Nat.ltb_lt in L. destruct (nth_error ms i) eqn:E; [|apply nth_error_None in E; lia].
+      rewrite (map_nth_error _ _ _ E). reflexivity.
+    + apply Nat.ltb_ge in L. apply nth_error_None. rewrite map_length. exact L.
+Qed.
+
+Lemma index_of_alias k (ms : list (bytes * ty)) j :
+  index_of k (map fst ms) 0 = Some j -> exists mt, nth_error ms j = Some (k, mt) /\ j < length ms.
+Proof.
+  intros H. pose proof (index_of_spec k (map fst ms) 0) as S. rewrite H in S. destruct S as [i0 [-> [Hn _]]]. simpl.
+  destruct (nth_error ms i0) as [[a mt]|] eqn:E.
+  - rewrite (map_nth_error fst _ _ E) in Hn. simpl in Hn. inversion Hn; subst. exists mt. split; [reflexivity|].
+    apply nth_error_Some. congruence.
+  - apply nth_error_None in E. assert (nth_error (map fst ms) i0 = None) by (apply nth_error_None; rewrite map_length; exact E).
+    congruence.
+Qed.
+
+Section UnionJ.
+  Variables (e : env) (w : bytes) (x : pathspec) (ig : nat) (pF : nat -> bytes -> option N).
+  Variable DJ : bool -> ty -> jdoc -> tracker -> res (value * tracker).
+  Notation goJuni := (goJuni w x ig DJ).
+  Notation stepJ := (stepJ e w x ig pF DJ).
+  Notation enter_map := (enter_map w x ig).
+
+  (* what the loop does with one non-null entry *)
+  Definition uni_entry (ms : list (bytes * ty)) (k : bytes) (xd : jdoc) (r : list (bytes * jdoc))
+      (uv : list (option value)) (wasSet : bool) (tr : tracker) : res (list (option value) * bool * tracker) :=
+    do tr1 <- enter_map k tr;
+    if wasSet then Err EUnion
+    else match index_of k (map fst ms) 0 with
+         | Some j =>
+             match nth_error ms j with
+             | Some (_, mt) => do rr <- DJ false mt xd tr1; goJuni ms r (set_nth j (Some (fst rr)) uv) true (pop (snd rr))
+             | None => Err EType
+             end
+         | None => Err EUnion
+         end.
+
+  Lemma goJuni_cons_live ms k xd r uv ws tr :
+    is_jnull xd = false -> goJuni ms ((k, xd) :: r) uv ws tr = uni_entry ms k xd r uv ws tr.
+  Proof.
+    intros H. unfold uni_entry. destruct xd; try discriminate; cbn [Ror2NoPanic.goJuni];
+      (destruct (enter_map k tr) as [tr1| |]; simpl; [|reflexivity..]; destruct ws; [reflexivity|];
+       destruct (index_of k (map fst ms) 0) as [j|]; [|reflexivity]; destruct (nth_error ms j) as [[al mt]|]; [|reflexivity];
+       match goal with |- context [DJ false mt ?d tr1] => destruct (DJ false mt d tr1) as [[v tr2]| |] end; reflexivity).
+  Qed.
+
+  Lemma goJuni_cons_null ms k r uv ws tr : goJuni ms ((k, JNull) :: r) uv ws tr = goJuni ms r uv ws tr.
+  Proof. reflexivity. Qed.
+
+  Lemma goJuni_live ms es : forall uv ws tr, goJuni ms es uv ws tr = goJuni ms (live es) uv ws tr.
+  Proof.
+    induction es as [|[k xd] r IH]; intros uv ws tr; [reflexivity|].
+    destruct (is_jnull xd) eqn:N.
+    - destruct xd; try discriminate. rewrite goJuni_cons_null, live_cons_null. apply IH.
+    - rewrite (live_cons_live k xd r N). rewrite !goJuni_cons_live by exact N.
+      unfold uni_entry. destruct (enter_map k tr) as [tr1| |]; simpl; try reflexivity. destruct ws; [reflexivity|].
+      destruct (index_of k (map fst ms) 0) as [j|]; [|reflexivity]. destruct (nth_error ms j) as [[al mt]|]; [|reflexivity].
+      destruct (DJ false mt xd tr1) as [[v tr2]| |]; simpl; try reflexivity. apply IH.
+  Qed.
+
+  Lemma live_is_live es k xd r : live es = (k, xd) :: r -> is_jnull xd = false.
+  Proof.
+    intros H. assert (I : In (k, xd) (live es)) by (rewrite H; left; reflexivity).
+    unfold live in I. apply filter_In in I. destruct I as [_ I]. simpl in I. apply negb_true_iff in I. exact I.
+  Qed.
+
+  (* once a member is set, any further non-null entry is an error: after enterMapScope, which may itself report an
+     excluded field first *)
+  Lemma goJuni_after_set ms k xd r uv tr :
+    is_jnull xd = false -> goJuni ms ((k, xd) :: r) uv true tr = (do _ <- enter_map k tr; Err EUnion).
+  Proof. intros H. rewrite goJuni_cons_live by exact H. reflexivity. Qed.
+
+  Definition union_outcome (nullable : bool) (r : res (list (option value) * bool * tracker)) : res (value * tracker) :=
+    do r0 <- r; let '(uv, wasSet, tr') := r0 in if negb nullable && negb wasSet then Err EUnion else Ok (VUnion uv, tr').
+
+  Lemma stepJ_union top n nullable ms d es tr :
+    lookup e n = Some (DUnion nullable ms) -> (d = JNull /\ es = [] \/ d = JObj es) ->
+    stepJ top (TRef n) d tr = union_outcome nullable (goJuni ms (live es) (none_members ms) false tr).
+  Proof.
+    intros L [[-> ->]| ->]; unfold Ror2NoPanic.stepJ; rewrite L; simpl; [reflexivity|].
+    rewrite goJuni_live. reflexivity.
+  Qed.
+
+  (* THE CASE ANALYSIS *)
+  Lemma stepJ_union_cases top n nullable ms d es tr :
+    lookup e n = Some (DUnion nullable ms) -> (d = JNull /\ es = [] \/ d = JObj es) ->
+    match live es with
+    | [] =>
+        (* no member: accepted only by a nullable union, as the struct with no member set *)
+        stepJ top (TRef n) d tr = if nullable then Ok (VUnion (none_members ms), tr) else Err EUnion
+    | [(k, xd)] =>
+        match index_of k (map fst ms) 0 with
+        | None =>
+            (* unknown member *)
+            stepJ top (TRef n) d tr = (do _ <- enter_map k tr; Err EUnion)
+        | Some j =>
+            (* the one known member: accepted iff the member decodes; exactly member j is set *)
+            exists mt, nth_error ms j = Some (k, mt) /\ j < length ms /\
+              stepJ top (TRef n) d tr =
+              (do tr1 <- enter_map k tr; do rr <- DJ false mt xd tr1;
+               Ok (VUnion (set_nth j (Some (fst rr)) (none_members ms)), pop (snd rr)))
+        end
+    | (k1, x1) :: (k2, x2) :: _ =>
+        (* two members: never accepted; the union error unless something failed before the second member was reached *)
+        stepJ top (TRef n) d tr =
+        (do tr1 <- enter_map k1 tr;
+         match index_of k1 (map fst ms) 0 with
+         | None => Err EUnion
+         | Some j => match nth_error ms j with
+                     | Some (_, mt) => do rr <- DJ false mt x1 tr1; do _ <- enter_map k2 (pop (snd rr)); Err EUnion
+                     | None => Err EType
+                     end
+         end)
+    end.
+  Proof.
+    intros L Hd. rewrite (stepJ_union top n nullable ms d es tr L Hd).
+    destruct (live es) as [|[k1 x1] [|[k2 x2] rest]] eqn:E.
+    - simpl. destruct nullable; reflexivity.
+    - pose proof (live_is_live _ _ _ _ E) as N1. rewrite goJuni_cons_live by exact N1. unfold uni_entry.
+      destruct (index_of k1 (map fst ms) 0) as [j|] eqn:I.
+      + destruct (index_of_alias _ _ _ I) as [mt [Hn Hj]]. exists mt. split; [exact Hn|]. split; [exact Hj|].
+        rewrite Hn. unfold union_outcome. destruct (enter_map k1 tr) as [tr1| |]; simpl; try reflexivity.
+        destruct (DJ false mt x1 tr1) as [[v tr2]| |]; simpl; try reflexivity. rewrite andb_false_r. reflexivity.
+      + unfold union_outcome. destruct (enter_map k1 tr); reflexivity.
+    - pose proof (live_is_live _ _ _ _ E) as N1.
+      assert (N2 : is_jnull x2 = false).
+      { assert (I : In (k2, x2) (live es)) by (rewrite E; right; left; reflexivity).
+        unfold live in I. apply filter_In in I. destruct I as [_ I]. simpl in I. apply negb_true_iff in I. exact I. }
+      rewrite goJuni_cons_live by exact N1. unfold uni_entry, union_outcome.
+      destruct (enter_map k1 tr) as [tr1| |]; cbn [bind]; try reflexivity.
+      destruct (index_of k1 (map fst ms) 0) as [j|]; [|reflexivity].
+      destruct (nth_error ms j) as [[a mt]|]; [|reflexivity].
+      destruct (DJ false mt x1 tr1) as [[v tr2]| |]; cbn [bind fst snd]; try reflexivity.
+      rewrite goJuni_after_set by exact N2. destruct (enter_map k2 (pop tr2)); reflexivity.
+  Qed.
+End UnionJ.
+
+Lemma np_not_ok_err {A} (r : res A) : r <> Panic -> (forall a, r <> Ok a) -> exists y, r = Err y.
+Proof. destruct r as [a|y|]; intros Hp Hn; [destruct (Hn a eq_refl) | exists y; reflexivity | congruence]. Qed.
+
+(* THEOREM (union, JSON): the complete behaviour of the union reader on a JSON object (or null), by its non-null entries *)
+Theorem union_decodes_exactly_one_J : forall e w x ig pF f top n nullable ms d es tr,
+  lookup e n = Some (DUnion nullable ms) -> (d = JNull /\ es = [] \/ d = JObj es) ->
+  let R := decJ e w x ig pF (S f) top (TRef n) d tr in
+  let D := decJ e w x ig pF f in
+  match live es with
+  | [] => R = if nullable then Ok (VUnion (none_members ms), tr) else Err EUnion
+  | [(k, xd)] =>
+      match index_of k (map fst ms) 0 with
+      | None => R = (do _ <- enter_map w x ig k tr; Err EUnion)
+      | Some j =>
+          exists mt, nth_error ms j = Some (k, mt) /\ j < length ms /\
+            R = (do tr1 <- enter_map w x ig k tr; do rr <- D false mt xd tr1;
+                 Ok (VUnion (set_nth j (Some (fst rr)) (none_members ms)), pop (snd rr)))
+      end
+  | (k1, x1) :: (k2, x2) :: _ =>
+      (exists err, R = Err err) /\
+      (forall tr1 j a mt v tr2 tr3,
+         enter_map w x ig k1 tr = Ok tr1 -> index_of k1 (map fst ms) 0 = Some j -> nth_error ms j = Some (a, mt) ->
+         D false mt x1 tr1 = Ok (v, tr2) -> enter_map w x ig k2 (pop tr2) = Ok tr3 -> R = Err EUnion)
+  end.
+Proof.
+  intros e w x ig pF f top n nullable ms d es tr L Hd R D.
+  pose proof (stepJ_union_cases e w x ig pF D top n nullable ms d es tr L Hd) as H.
+  assert (ER : R = stepJ e w x ig pF D top (TRef n) d tr) by (apply decJ_unfold).
+  destruct (live es) as [|[k1 x1] [|[k2 x2] rest]].
+  - rewrite ER. exact H.
+  - destruct (index_of k1 (map fst ms) 0) as [j|].
+    + destruct H as [mt [H1 [H2 H3]]]. exists mt. rewrite ER. auto.
+    + rewrite ER. exact H.
+  - rewrite <- ER in H. split.
+    + apply np_not_ok_err; [apply decJ_never_panics|]. intros r. rewrite H.
+      destruct (enter_map w x ig k1 tr) as [tr1| |]; simpl; try discriminate.
+      destruct (index_of k1 (map fst ms) 0) as [j|]; [|discriminate].
+      destruct (nth_error ms j) as [[a mt]|]; [|discriminate].
+      destruct (D false mt x1 tr1) as [[v tr2]| |]; simpl; try discriminate.
+      destruct (enter_map w x ig k2 (pop tr2)); discriminate.
+    + intros tr1 j a mt v tr2 tr3 E1 E2 E3 E4 E5. rewrite H, E1. simpl. rewrite E2, E3, E4. simpl. rewrite E5. reflexivity.
+Qed.
+
+(* ==================================================================================================================== *)
+(* 8. Decoding: every accepted value satisfies the constraints at the positions decoded from the document                *)
+(* ==================================================================================================================== *)
+Section DValid.
+  Variable e : env.
+
+  (* the untouched zero value of the Go type: what a record slot holds when the document has no entry for it *)
+  Definition is_zero (t : ty) (v : value) : Prop := exists k, v = zero_value e k t.
+
+  (* [dvalid t v]: every union of v decoded from the document has exactly one member (none only if nullable), every fixed has
+     its size, every enum is a declared constant or the unknown constant 0.  A REQUIRED field of a record (and an included
+     record) whose entry is absent from the document keeps its zero value - the absence is reported separately through the
+     missing-required-fields tracker (property C07) - so such a slot is allowed to hold the zero value instead. *)
+  Inductive dvalid : ty -> value -> Prop :=
+  | DV_prim p v : dvalid (TPrim p) v
+  | DV_enum syms k : k <= length syms -> dvalid (TEnum syms) (VEnum k)
+  | DV_fixed n s : length s = n -> dvalid (TFixed n) (VFixed s)
+  | DV_arr t l : Forall (dvalid t) l -> dvalid (TArray t) (VArr l)
+  | DV_map t es : Forall (fun kv => dvalid t (snd kv)) es -> dvalid (TMap t) (VMap es)
+  | DV_rec n incs fs ivs fvs :
+      lookup e n = Some (DRecord incs fs) ->
+      (forall p i iv, nth_error incs p = Some i -> nth_error ivs p = Some iv -> dvalid (TRef i) iv \/ is_zero (TRef i) iv) ->
+      (forall j fd y, nth_error fs j = Some fd -> nth_error fvs j = Some (Some y) ->
+                      dvalid (f_ty fd) y \/ (is_required (f_opt fd) = true /\ is_zero (f_ty fd) y)) ->
+      dvalid (TRef n) (VRec ivs fvs)
+  | DV_union n nullable ms vs :
+      lookup e n = Some (DUnion nullable ms) ->
+      length vs = length ms ->
+      union_ok nullable vs ->
+      (forall j m y, nth_error ms j = Some m -> nth_error vs j = Some (Some y) -> dvalid (snd m) y) ->
+      dvalid (TRef n) (VUnion vs).
+
+  Lemma zero_rec_dvalid i incs fs : lookup e i = Some (DRecord incs fs) -> forall k, dvalid (TRef i) (zero_value e k (TRef i)).
+  Proof.
+    intros L [|k].
+    - simpl. eapply DV_rec; [exact L | |]; intros [|p] ? ? ? H; discriminate.
+    - simpl. rewrite L. eapply DV_rec; [exact L | |].
+      + intros p i' iv Hi Hv. right. rewrite (map_nth_error _ _ _ Hi) in Hv. inversion Hv. exists k. reflexivity.
+      + intros j fd y Hf Hv. right. rewrite (map_nth_error _ _ _ Hf) in Hv.
+        destruct (is_required (f_opt fd)); [|discriminate]. inversion Hv. split; [reflexivity | exists k; reflexivity].
+  Qed.
+End DValid.
+
+Lemma Forall_insert_entry {A} (P : bytes * A -> Prop) k v l : P (k, v) -> Forall P l -> Forall P (insert_entry k v l).
+Proof.
+  intros Hk. induction l as [|[k' v'] r IH]; intros H; simpl; [constructor; auto|].
+  inversion H; subst. destruct (bytes_ltb k k'); constructor; auto.
+Qed.
+
+Lemma Forall_sort_entries {A} (P : bytes * A -> Prop) l : Forall P l -> Forall P (sort_entries l).
+Proof.
+  induction l as [|[k v] r IH]; intros H; simpl; [constructor|]. inversion H; subst. apply Forall_insert_entry; auto.
+Qed.
+
+Lemma Forall_map_put (P : bytes * value -> Prop) k v l : P (k, v) -> Forall P l -> Forall P (map_put k v l).
+Proof.
+  intros Hk. induction l as [|[k' v'] r IH]; intros H; simpl; [constructor; auto|].
+  inversion H; subst. destruct (bytes_eqb k k'); constructor; auto.
+Qed.
+
+(* the include search of UnmarshalField, as a top-level fixpoint (the model's local fix, by conversion) *)
+Definition try_incsJ (e : env) (DJ : bool -> ty -> jdoc -> tracker -> res (value * tracker)) (k : nat) (key : bytes) (jd : jdoc)
+    (tr : tracker) :=
+  fix try_incs (is : list nat) (vs : list value) (pos : nat) : res (option (nat * value * tracker)) :=
+    match is, vs with
+    | i :: is', iv :: vs' =>
+        do r <- umfJ e DJ k i key jd iv tr;
+        let '(found, iv', tr') := r in
+        if found then Ok (Some (pos, iv', tr')) else try_incs is' vs' (S pos)
+    | _, _ => Ok None
+    end.
+
+Lemma umfJ_S e DJ k n key jd rv tr :
+  umfJ e DJ (S k) n key jd rv tr =
+  match lookup e n, rv with
+  | Some (DRecord incs fs), VRec ivs fvs =>
+      do hit <- try_incsJ e DJ k key jd tr incs ivs 0;
+      match hit with
+      | Some (pos, iv', tr') => Ok (true, VRec (set_nth pos iv' ivs) fvs, tr')
+      | None =>
+          match index_of key (map f_name fs) 0 with
+          | Some j =>
+              match nth_error fs j with
+              | Some fd => do r <- DJ false (f_ty fd) jd tr; let '(v, tr') := r in Ok (true, VRec ivs (set_nth j (Some v) fvs), tr')
+              | None => Err EType
+              end
+          | None => Ok (false, rv, tr)
+          end
+      end
+  | _, _ => Err EType
+  end.
+Proof. reflexivity. Qed.
+
+Lemma try_incsJ_spec e DJ k key jd tr : forall is vs pos hit,
+  try_incsJ e DJ k key jd tr is vs pos = Ok hit ->
+  match hit with
+  | None => True
+  | Some (p, iv', tr') =>
+      exists q i iv b, p = pos + q /\ nth_error is q = Some i /\ nth_error vs q = Some iv /\
+                       umfJ e DJ k i key jd iv tr = Ok (b, iv', tr')
+  end.
+Proof.
+  induction is as [|i is IH]; intros vs pos hit H; [inversion H; exact I|].
+  destruct vs as [|iv vs]; [inversion H; exact I|]. cbn [try_incsJ] in H. fold (try_incsJ e DJ k key jd tr) in H.
+  destruct (umfJ e DJ k i key jd iv tr) as [[[found iv'] tr']| |] eqn:E; simpl in H; try discriminate.
+  destruct found.
+  - inversion H; subst. exists 0, i, iv, true. repeat split; [lia | exact E].
+  - apply IH in H. destruct hit as [[[p iv''] tr'']|]; [|exact I].
+    destruct H as [q [i' [iv0 [b [-> [H1 [H2 H3]]]]]]]. exists (S q), i', iv0, b. repeat split; [lia | exact H1 | exact H2 | exact H3].
+Qed.
+
+Lemma umfJ_ok_record e DJ k n key jd rv tr r :
+  umfJ e DJ k n key jd rv tr = Ok r -> exists incs fs, lookup e n = Some (DRecord incs fs).
+Proof.
+  destruct k; [discriminate|]. rewrite umfJ_S. destruct (lookup e n) as [[incs fs|? ?]|]; try discriminate.
+  intros _. eexists; eexists; reflexivity.
+Qed.
+
+Lemma fill_defaultsS_nth DJ : forall fs fvs j fd y,
+  nth_error fs j = Some fd -> nth_error (fill_defaultsS DJ fs fvs) j = Some (Some y) ->
+  nth_error fvs j = Some (Some y) \/ (exists lit, f_opt fd = Default lit /\ lit_valueS DJ (f_ty fd) lit = Some y).
+Proof.
+  induction fs as [|fd0 fs IH]; intros fvs j fd y Hf H; [destruct j; discriminate|].
+  destruct fvs as [|ov fvs]; [destruct j; discriminate|]. cbn [fill_defaultsS] in H. destruct j as [|j]; simpl in *.
+  - inversion Hf; subst fd0. destruct ov as [v|]; [left; exact H|].
+    destruct (f_opt fd) as [| |lit]; try (left; exact H). right. exists lit. split; [reflexivity|]. inversion H. reflexivity.
+  - eapply IH; eassumption.
+Qed.
+
+Section DecJValid.
+  Variables (e : env) (w : bytes) (x : pathspec) (ig : nat) (pF : nat -> bytes -> option N).
+  Variable DJ : bool -> ty -> jdoc -> tracker -> res (value * tracker).
+  Hypothesis HDJ : forall top t d tr v tr', DJ top t d tr = Ok (v, tr') -> dvalid e t v.
+  Notation enter_map := (enter_map w x ig).
+
+  Lemma goJarr_dvalid t' : forall l i acc tr v tr',
+    Forall (dvalid e t') acc -> goJarr DJ t' l i acc tr = Ok (v, tr') -> dvalid e (TArray t') v.
+  Proof.
+    induction l as [|d l IH]; intros i acc tr v tr' Ha H; cbn [goJarr] in H.
+    - inversion H; subst. constructor. apply Forall_rev. exact Ha.
+    - destruct (DJ false t' d (enter_array i tr)) as [[v1 tr1]| |] eqn:E; simpl in H; try discriminate.
+      eapply IH; [|exact H]. constructor; [eapply HDJ; exact E | exact Ha].
+  Qed.
+
+  Lemma goJmap_cons_live t' k xd r acc tr : is_jnull xd = false ->
+    goJmap w x ig DJ t' ((k, xd) :: r) acc tr =
+    (do tr1 <- enter_map k tr; do rr <- DJ false t' xd tr1; goJmap w x ig DJ t' r (map_put k (fst rr) acc) (pop (snd rr))).
+  Proof.
+    intros H. destruct xd; try discriminate; cbn [goJmap];
+      (destruct (enter_map k tr) as [tr1| |]; simpl; [|reflexivity..];
+       match goal with |- context [DJ false t' ?d tr1] => destruct (DJ false t' d tr1) as [[v tr2]| |] end; reflexivity).
+  Qed.
+
+  Lemma goJmap_dvalid t' : forall l acc tr v tr',
+    Forall (fun kv => dvalid e t' (snd kv)) acc -> goJmap w x ig DJ t' l acc tr = Ok (v, tr') -> dvalid e (TMap t') v.
+  Proof.
+    induction l as [|[k xd] l IH]; intros acc tr v tr' Ha H.
+    - cbn [goJmap] in H. inversion H; subst. constructor. apply Forall_sort_entries. exact Ha.
+    - destruct (is_jnull xd) eqn:N.
+      + destruct xd; try discriminate. cbn [goJmap] in H. eapply IH; eassumption.
+      + rewrite goJmap_cons_live in H by exact N.
+        destruct (enter_map k tr) as [tr1| |]; simpl in H; try discriminate.
+        destruct (DJ false t' xd tr1) as [[v1 tr2]| |] eqn:E; simpl in H; try discriminate.
+        eapply IH; [|exact H]. apply Forall_map_put; [simpl; eapply HDJ; exact E | exact Ha].
+  Qed.
+
+  Lemma umfJ_dvalid : forall k n key jd rv tr b rv' tr',
+    umfJ e DJ k n key jd rv tr = Ok (b, rv', tr') -> dvalid e (TRef n) rv -> dvalid e (TRef n) rv'.
+  Proof.
+    induction k as [|k IH]; intros n key jd rv tr b rv' tr' H Hv; [discriminate|].
+    rewrite umfJ_S in H. destruct (lookup e n) as [[incs fs|? ?]|] eqn:L; try discriminate.
+    destruct rv as [| | | | | | | | |ivs fvs| | |]; try discriminate.
+    inversion Hv as [| | | | |n0 incs0 fs0 ivs0 fvs0 L0 Hinc Hfld|]; subst.
+    assert (incs0 = incs /\ fs0 = fs) as [-> ->] by (split; congruence). clear L0.
+    destruct (try_incsJ e DJ k key jd tr incs ivs 0) as [hit| |] eqn:Eh; simpl in H; try discriminate.
+    apply try_incsJ_spec in Eh. destruct hit as [[[p iv'] tr1]|].
+    - destruct Eh as [q [i [iv [b0 [-> [Hi [Hiv Hu]]]]]]]. simpl in H. inversion H; subst. clear H.
+      assert (Hd : dvalid e (TRef i) iv').
+      { eapply IH; [exact Hu|]. destruct (Hinc q i iv Hi Hiv) as [Hd|[k0 ->]]; [exact Hd|].
+        destruct (umfJ_ok_record _ _ _ _ _ _ _ _ _ Hu) as [incs' [fs' L']]. eapply zero_rec_dvalid; exact L'. }
+      eapply DV_rec; [exact L | | exact Hfld].
+      intros p i' iv'' Hi' Hs. rewrite set_nth_nth' in Hs. destruct (Nat.eqb p q) eqn:Epq.
+      + apply Nat.eqb_eq in Epq. subst p. rewrite Hiv in Hs. inversion Hs; subst. left.
+        assert (i' = i) by congruence. subst. exact Hd.
+      + eapply Hinc; eassumption.
+    - destruct (index_of key (map f_name fs) 0) as [j|].
+      + destruct (nth_error fs j) as [fd|] eqn:Ef; [|discriminate].
+        destruct (DJ false (f_ty fd) jd tr) as [[v tr2]| |] eqn:Ed; simpl in H; try discriminate.
+        inversion H; subst. clear H. eapply DV_rec; [exact L | exact Hinc |].
+        intros j' fd' y Hf Hs. rewrite set_nth_nth' in Hs. destruct (Nat.eqb j' j) eqn:Ej.
+        * apply Nat.eqb_eq in Ej. subst j'. destruct (nth_error fvs j); [|discriminate]. inversion Hs; subst.
+          assert (fd' = fd) by congruence. subst. left. eapply HDJ; exact Ed.
+        * eapply Hfld; eassumption.
+      + inversion H; subst. exact Hv.
+  Qed.
+
+  Lemma goJrec_cons_live n k xd r rv rem tr : is_jnull xd = false ->
+    goJrec e w x ig DJ n ((k, xd) :: r) rv rem tr =
+    (do tr1 <- enter_map k tr; do u <- umfJ e DJ (S (length e)) n k xd rv tr1;
+     goJrec e w x ig DJ n r (snd (fst u)) (remove_bytes k rem) (pop (snd u))).
+  Proof.
+    intros H. destruct xd; try discriminate; cbn [goJrec];
+      (destruct (enter_map k tr) as [tr1| |]; cbn [bind]; [|reflexivity..];
+       match goal with |- context [umfJ e DJ ?a n k ?d rv tr1] => destruct (umfJ e DJ a n k d rv tr1) as [[[fb rvx] trx]| |] end;
+       reflexivity).
+  Qed.
+
+  Lemma goJrec_dvalid n : forall l rv rem tr rv' rem' tr',
+    dvalid e (TRef n) rv -> goJrec e w x ig DJ n l rv rem tr = Ok (rv', rem', tr') -> dvalid e (TRef n) rv'.
+  Proof.
+    induction l as [|[k xd] l IH]; intros rv rem tr rv' rem' tr' Hv H.
+    - cbn [goJrec] in H. inversion H; subst. exact Hv.
+    - destruct (is_jnull xd) eqn:N.
+      + destruct xd; try discriminate. cbn [goJrec] in H. eapply IH; eassumption.
+      + rewrite goJrec_cons_live in H by exact N.
+        destruct (enter_map k tr) as [tr1| |]; cbn [bind] in H; try discriminate.
+        destruct (umfJ e DJ (S (length e)) n k xd rv tr1) as [[[b rv1] tr2]| |] eqn:E; cbn [bind fst snd] in H; try discriminate.
+        eapply IH; [|exact H]. eapply umfJ_dvalid; eassumption.
+  Qed.
+
+  Definition uni_inv (ms : list (bytes * ty)) (uv : list (option value)) (ws : bool) : Prop :=
+    length uv = length ms /\ count_set uv = b2n ws /\
+    forall j m y, nth_error ms j = Some m -> nth_error uv j = Some (Some y) -> dvalid e (snd m) y.
+
+  Lemma uni_inv_init ms : uni_inv ms (none_members ms) false.
+  Proof.
+    split; [unfold none_members; apply map_length|]. split; [apply count_set_none|].
+    intros j m y Hm H. unfold none_members in H. rewrite (map_nth_error _ _ _ Hm) in H. discriminate.
+  Qed.
+
+  Lemma uni_inv_set ms uv j k mt v :
+    uni_inv ms uv false -> nth_error ms j = Some (k, mt) -> j < length ms -> dvalid e mt v ->
+    uni_inv ms (set_nth j (Some v) uv) true.
+  Proof.
+    intros [Hl [Hc Hk]] Hm Hj Hv. split; [rewrite set_nth_length; exact Hl|]. split.
+    - apply count_set_set_nth; [lia | exact Hc].
+    - intros j' m y Hm' Hs. rewrite set_nth_nth in Hs by lia. destruct (Nat.eqb j' j) eqn:Ej.
+      + apply Nat.eqb_eq in Ej. subst j'. inversion Hs; subst. assert (m = (k, mt)) by congruence. subst. exact Hv.
+      + eapply Hk; eassumption.
+  Qed.
+
+  Lemma goJuni_inv ms : forall l uv ws tr uv' ws' tr',
+    uni_inv ms uv ws -> goJuni w x ig DJ ms l uv ws tr = Ok (uv', ws', tr') -> uni_inv ms uv' ws'.
+  Proof.
+    induction l as [|[k xd] l IH]; intros uv ws tr uv' ws' tr' Hi H.
+    - cbn [goJuni] in H. inversion H; subst. exact Hi.
+    - destruct (is_jnull xd) eqn:N.
+      + destruct xd; try discriminate. rewrite goJuni_cons_null in H. eapply IH; eassumption.
+      + rewrite goJuni_cons_live in H by exact N. unfold uni_entry in H.
+        destruct (enter_map k tr) as [tr1| |]; cbn [bind] in H; try discriminate.
+        destruct ws; [discriminate|].
+        destruct (index_of k (map fst ms) 0) as [j|] eqn:I; [|discriminate].
+        destruct (index_of_alias _ _ _ I) as [mt [Hm Hj]]. rewrite Hm in H.
+        destruct (DJ false mt xd tr1) as [[v tr2]| |] eqn:E; cbn [bind fst snd] in H; try discriminate.
+        eapply IH; [|exact H]. eapply uni_inv_set; [exact Hi | exact Hm | exact Hj | eapply HDJ; exact E].
+  Qed.
+
+  Lemma stepJ_dvalid top t d tr v tr' : stepJ e w x ig pF DJ top t d tr = Ok (v, tr') -> dvalid e t v.
+  Proof.
+    unfold stepJ. destruct t as [p|syms|sz|n|t'|t'].
+    - intros _. constructor.
+    - destruct (jstring d) as [s| |]; simpl; try discriminate. intros H; inversion H; subst.
+      destruct (enum_value_bound syms s) as [k [-> Hk]]. constructor. exact Hk.
+    - destruct (jprim pF PBytes d) as [v0| |]; simpl; try discriminate. destruct v0; try discriminate.
+      destruct (Nat.eqb (length s) sz) eqn:L; [|discriminate]. apply Nat.eqb_eq in L. intros H; inversion H; subst.
+      constructor. reflexivity.
+    - destruct (lookup e n) as [[incs fs|nullable ms]|] eqn:L; [| |discriminate].
+      + destruct (match d with JNull => Ok [] | JObj es => Ok es | _ => Err EDeser end) as [es| |]; cbn [bind]; try discriminate.
+        destruct (goJrec e w x ig DJ n es (zero_value e (S (S (length e))) (TRef n)) (required_fields e (S (length e)) n) tr)
+          as [[[rv rem] tr1]| |] eqn:G; cbn [bind]; try discriminate.
+        assert (Hr : dvalid e (TRef n) rv).
+        { eapply goJrec_dvalid; [|exact G]. eapply zero_rec_dvalid; exact L. }
+        cbv zeta. intros H. inversion H; subst. clear H.
+        match goal with |- dvalid _ _ (if ?c then _ else _) => destruct c end; [exact Hr|].
+        destruct rv as [| | | | | | | | |rivs rfvs| | |]; try exact Hr.
+        inversion Hr as [| | | | |n0 incs1 fs1 ivs0 fvs0 L0 Hinc Hfld|]; subst.
+        assert (incs1 = incs /\ fs1 = fs) as [-> ->] by (split; congruence).
+        eapply DV_rec; [exact L | exact Hinc |].
+        intros j fd y Hf Hs. destruct (fill_defaultsS_nth DJ _ _ _ _ _ Hf Hs) as [Ho|[lit [_ Hl]]].
+        * eapply Hfld; eassumption.
+        * left. unfold lit_valueS in Hl. destruct (Json.parse_json lit) as [jd|]; [|discriminate].
+          destruct (DJ true (f_ty fd) jd tracker0) as [[v0 tr0]| |] eqn:E; try discriminate. inversion Hl; subst.
+          eapply HDJ; exact E.
+      + destruct (match d with JNull => Ok [] | JObj es => Ok es | _ => Err EDeser end) as [es| |]; cbn [bind]; try discriminate.
+        destruct (goJuni w x ig DJ ms es (map (fun _ => None) ms) false tr) as [[[uv ws] tr1]| |] eqn:G; cbn [bind]; try discriminate.
+        destruct (goJuni_inv ms _ _ _ _ _ _ _ (uni_inv_init ms) G) as [Hl [Hc Hk]].
+        destruct (negb nullable && negb ws) eqn:C; [discriminate|]. intros H; inversion H; subst.
+        eapply DV_union; [exact L | exact Hl | | exact Hk].
+        unfold union_ok. rewrite Hc. destruct ws; [left; reflexivity|]. right. split; [|reflexivity].
+        destruct nullable; [reflexivity | discriminate].
+    - destruct d; try discriminate.
+      + intros H; inversion H. constructor. constructor.
+      + intros H. eapply goJarr_dvalid; [|exact H]. constructor.
+    - destruct d; try discriminate.
+      + intros H; inversion H. constructor. constructor.
+      + intros H. eapply goJmap_dvalid; [|exact H]. constructor.
+  Qed.
+End DecJValid.
+
+(* THEOREM (decoded values are valid, JSON) *)
+Theorem decJ_dvalid : forall e w x ig pF fuel top t d tr v tr',
+  decJ e w x ig pF fuel top t d tr = Ok (v, tr') -> dvalid e t v.
+Proof.
+  intros e w x ig pF fuel. induction fuel as [|f IH]; intros top t d tr v tr' H; [discriminate|].
+  rewrite decJ_unfold in H. eapply stepJ_dvalid; [|exact H]. exact IH.
+Qed.
+
+(* in particular: a union the JSON decoder accepts has exactly one member set, or none when nullable *)
+Theorem union_decoded_constraint_J : forall e w x ig pF fuel top n nullable ms d tr v tr',
+  lookup e n = Some (DUnion nullable ms) -> decJ e w x ig pF fuel top (TRef n) d tr = Ok (v, tr') ->
+  exists uv, v = VUnion uv /\ length uv = length ms /\ union_ok nullable uv.
+Proof.
+  intros e w x ig pF fuel top n nullable ms d tr v tr' L H. apply decJ_dvalid in H.
+  inversion H; subst; [congruence|]. assert (nullable0 = nullable /\ ms0 = ms) as [-> ->] by (split; congruence).
+  eexists; split; [reflexivity|]. split; assumption.
+Qed.
+
+(* ==================================================================================================================== *)
+(* 9. The same on the ROR2 cursor-level decoder [decR]                                                                    *)
+(* ==================================================================================================================== *)
+Definition try_incsR (e : env) (D : ty -> rst -> res (value * rst)) (k : nat) (key : bytes) (s : rst) :=
+  fix try_incs (is : list nat) (vs : list value) (pos : nat) : res (option (nat * value * rst)) :=
+    match is, vs with
+    | i :: is', iv :: vs' =>
+        do r <- umfR e D k i key iv s;
+        let '(found, iv', s') := r in
+        if found then Ok (Some (pos, iv', s')) else try_incs is' vs' (S pos)
+    | _, _ => Ok None
+    end.
+
+Lemma umfR_S e D k n key rv s :
+  umfR e D (S k) n key rv s =
+  match lookup e n, rv with
+  | Some (DRecord incs fs), VRec ivs fvs =>
+      do hit <- try_incsR e D k key s incs ivs 0;
+      match hit with
+      | Some (pos, iv', s') => Ok (true, VRec (set_nth pos iv' ivs) fvs, s')
+      | None =>
+          match index_of key (map f_name fs) 0 with
+          | Some j =>
+              match nth_error fs j with
+              | Some fd => do r <- D (f_ty fd) s; let '(v, s') := r in Ok (true, VRec ivs (set_nth j (Some v) fvs), s')
+              | None => Err EType
+              end
+          | None => Ok (false, rv, s)
+          end
+      end
+  | _, _ => Err EType
+  end.
+Proof. reflexivity. Qed.
+
+Lemma try_incsR_spec e D k key s : forall is vs pos hit,
+  try_incsR e D k key s is vs pos = Ok hit ->
+  match hit with
+  | None => True
+  | Some (p, iv', s') =>
+      exists q i iv b, p = pos + q /\ nth_error is q = Some i /\ nth_error vs q = Some iv /\
+                       umfR e D k i key iv s = Ok (b, iv', s')
+  end.
+Proof.
+  induction is as [|i is IH]; intros vs pos hit H; [inversion H; exact I|].
+  destruct vs as [|iv vs]; [inversion H; exact I|]. cbn [try_incsR] in H. fold (try_incsR e D k key s) in H.
+  destruct (umfR e D k i key iv s) as [[[found iv'] s']| |] eqn:E; simpl in H; try discriminate.
+  destruct found.
+  - inversion H; subst. exists 0, i, iv, true. repeat split; [lia | exact E].
+  - apply IH in H. destruct hit as [[[p iv''] s'']|]; [|exact I].
+    destruct H as [q [i' [iv0 [b [-> [H1 [H2 H3]]]]]]]. exists (S q), i', iv0, b. repeat split; [lia | exact H1 | exact H2 | exact H3].
+Qed.
+
+Lemma umfR_ok_record e D k n key rv s r :
+  umfR e D k n key rv s = Ok r -> exists incs fs, lookup e n = Some (DRecord incs fs).
+Proof.
+  destruct k; [discriminate|]. rewrite umfR_S. destruct (lookup e n) as [[incs fs|? ?]|]; try discriminate.
+  intros _. eexists; eexists; reflexivity.
+Qed.
+
+(* populateLocalDefaultValues keeps the invariant: a default is itself decoded from a document (its literal) *)
+Lemma fill_defaults_dvalid e DJ n incs fs rv :
+  (forall top t d tr v tr', DJ top t d tr = Ok (v, tr') -> dvalid e t v) ->
+  lookup e n = Some (DRecord incs fs) -> dvalid e (TRef n) rv ->
+  dvalid e (TRef n) (match rv with VRec ivs fvs => VRec ivs (fill_defaultsS DJ fs fvs) | _ => rv end).
+Proof.
+  intros HDJ L Hr. destruct rv as [| | | | | | | | |rivs rfvs| | |]; try exact Hr.
+  inversion Hr as [| | | | |n0 incs1 fs1 ivs0 fvs0 L0 Hinc Hfld|]; subst.
+  assert (incs1 = incs /\ fs1 = fs) as [-> ->] by (split; congruence).
+  eapply DV_rec; [exact L | exact Hinc |].
+  intros j fd y Hf Hs. destruct (fill_defaultsS_nth DJ _ _ _ _ _ Hf Hs) as [Ho|[lit [_ Hl]]].
+  - eapply Hfld; eassumption.
+  - left. unfold lit_valueS in Hl. destruct (Json.parse_json lit) as [jd|]; [|discriminate].
+    destruct (DJ true (f_ty fd) jd tracker0) as [[v0 tr0]| |] eqn:E; try discriminate. inversion Hl; subst.
+    eapply HDJ; exact E.
+Qed.
+
+Section DecRValid.
+  Variables (e : env) (w : bytes) (x : pathspec) (ig : nat) (pF : nat -> bytes -> option N).
+  Variable DJ : bool -> ty -> jdoc -> tracker -> res (value * tracker).
+  Variables (unesc : bytes -> option bytes) (em lp : bytes) (qr : bool).
+  Variable D : ty -> rst -> res (value * rst).
+  Hypothesis HDJ : forall top t d tr v tr', DJ top t d tr = Ok (v, tr') -> dvalid e t v.
+  Hypothesis HD : forall t s v s', D t s = Ok (v, s') -> dvalid e t v.
+  Notation enter_map := (enter_map w x ig).
+
+  Lemma goRarr_dvalid t' : forall k i acc s v s',
+    Forall (dvalid e t') acc -> goRarr D t' k i acc s = Ok (v, s') -> dvalid e (TArray t') v.
+  Proof.
+    induction k as [|k IH]; intros i acc s v s' Ha H; [discriminate|]. cbn [goRarr] in H.
+    destruct (D t' (with_tr s (enter_array i (r_tr s)))) as [[v1 s1]| |] eqn:E; cbn [bind] in H; try discriminate.
+    destruct (read_after (with_tr s1 (pop (r_tr s1)))) as [[s2|s2]| |]; cbn [bind] in H; try discriminate.
+    - eapply IH; [|exact H]. constructor; [eapply HD; exact E | exact Ha].
+    - assert (Hf : Forall (dvalid e t') (rev (v1 :: acc))).
+      { apply Forall_rev. constructor; [eapply HD; exact E | exact Ha]. }
+      inversion H; subst. constructor. exact Hf.
+  Qed.
+
+  Lemma goRmap_dvalid t' : forall k acc s v s',
+    Forall (fun kv => dvalid e t' (snd kv)) acc -> goRmap w x ig unesc em D t' k acc s = Ok (v, s') -> dvalid e (TMap t') v.
+  Proof.
+    induction k as [|k IH]; intros acc s v s' Ha H; [discriminate|]. cbn [goRmap] in H.
+    destruct (check_not_at_end s); cbn [bind] in H; try discriminate.
+    destruct (idx s) as [c| |]; cbn [bind] in H; try discriminate.
+    destruct (Byte.eqb c x29).
+    { inversion H; subst. constructor. apply Forall_sort_entries. exact Ha. }
+    destruct (read_field_name unesc em s) as [[key s1]| |]; cbn [bind] in H; try discriminate.
+    destruct (enter_map key (r_tr s1)) as [tr1| |]; cbn [bind] in H; try discriminate.
+    destruct (D t' (with_tr s1 tr1)) as [[v1 s2]| |] eqn:E; cbn [bind] in H; try discriminate.
+    assert (Ha' : Forall (fun kv => dvalid e t' (snd kv)) (map_put key v1 acc)).
+    { apply Forall_map_put; [simpl; eapply HD; exact E | exact Ha]. }
+    destruct (read_after (with_tr s2 (pop (r_tr s2)))) as [[s3|s3]| |]; cbn [bind] in H; try discriminate.
+    - eapply IH; [|exact H]. exact Ha'.
+    - inversion H; subst. constructor. apply Forall_sort_entries. exact Ha'.
+  Qed.
+
+  Lemma umfR_dvalid : forall k n key rv s b rv' s',
+    umfR e D k n key rv s = Ok (b, rv', s') -> dvalid e (TRef n) rv -> dvalid e (TRef n) rv'.
+  Proof.
+    induction k as [|k IH]; intros n key rv s b rv' s' H Hv; [discriminate|].
+    rewrite umfR_S in H. destruct (lookup e n) as [[incs fs|? ?]|] eqn:L; try discriminate.
+    destruct rv as [| | | | | | | | |ivs fvs| | |]; try discriminate.
+    inversion Hv as [| | | | |n0 incs0 fs0 ivs0 fvs0 L0 Hinc Hfld|]; subst.
+    assert (incs0 = incs /\ fs0 = fs) as [-> ->] by (split; congruence). clear L0.
+    destruct (try_incsR e D k key s incs ivs 0) as [hit| |] eqn:Eh; simpl in H; try discriminate.
+    apply try_incsR_spec in Eh. destruct hit as [[[p iv'] s1]|].
+    - destruct Eh as [q [i [iv [b0 [-> [Hi [Hiv Hu]]]]]]]. simpl in H. inversion H; subst. clear H.
+      assert (Hd : dvalid e (TRef i) iv').
+      { eapply IH; [exact Hu|]. destruct (Hinc q i iv Hi Hiv) as [Hd|[k0 ->]]; [exact Hd|].
+        destruct (umfR_ok_record _ _ _ _ _ _ _ _ Hu) as [incs' [fs' L']]. eapply zero_rec_dvalid; exact L'. }
+      eapply DV_rec; [exact L | | exact Hfld].
+      intros p i' iv'' Hi' Hs. rewrite set_nth_nth' in Hs. destruct (Nat.eqb p q) eqn:Epq.
+      + apply Nat.eqb_eq in Epq. subst p. rewrite Hiv in Hs. inversion Hs; subst. left.
+        assert (i' = i) by congruence. subst. exact Hd.
+      + eapply Hinc; eassumption.
+    - destruct (index_of key (map f_name fs) 0) as [j|].
+      + destruct (nth_error fs j) as [fd|] eqn:Ef; [|discriminate].
+        destruct (D (f_ty fd) s) as [[v s2]| |] eqn:Ed; simpl in H; try discriminate.
+        inversion H; subst. clear H. eapply DV_rec; [exact L | exact Hinc |].
+        intros j' fd' y Hf Hs. rewrite set_nth_nth' in Hs. destruct (Nat.eqb j' j) eqn:Ej.
+        * apply Nat.eqb_eq in Ej. subst j'. destruct (nth_error fvs j); [|discriminate]. inversion Hs; subst.
+          assert (fd' = fd) by congruence. subst. left. eapply HD; exact Ed.
+        * eapply Hfld; eassumption.
+      + inversion H; subst. exact Hv.
+  Qed.
+
+  Lemma goRrec_dvalid n : forall k rv rem s rv' rem' s',
+    dvalid e (TRef n) rv -> goRrec e w x ig unesc em lp D n k rv rem s = Ok (rv', rem', s') -> dvalid e (TRef n) rv'.
+  Proof.
+    induction k as [|k IH]; intros rv rem s rv' rem' s' Hv H; [discriminate|]. cbn [goRrec] in H.
+    destruct (check_not_at_end s); cbn [bind] in H; try discriminate.
+    destruct (idx s) as [c| |]; cbn [bind] in H; try discriminate.
+    destruct (Byte.eqb c x29).
+    { inversion H; subst. exact Hv. }
+    destruct (read_field_name unesc em s) as [[key s1]| |]; cbn [bind] in H; try discriminate.
+    destruct (enter_map key (r_tr s1)) as [tr1| |]; cbn [bind] in H; try discriminate.
+    destruct (umfR e D (S (length e)) n key rv (with_tr s1 tr1)) as [[[found rv1] s2]| |] eqn:E; cbn [bind] in H; try discriminate.
+    assert (Hv1 : dvalid e (TRef n) rv1) by (eapply umfR_dvalid; eassumption).
+    destruct (if found then Ok s2 else rskip lp s2) as [s2'| |]; cbn [bind] in H; try discriminate.
+    destruct (read_after (with_tr s2' (pop (r_tr s2')))) as [[s3|s3]| |]; cbn [bind] in H; try discriminate.
+    - eapply IH; [|exact H]. exact Hv1.
+    - inversion H; subst. exact Hv1.
+  Qed.
+
+  Lemma goRuni_inv ms : forall k uv ws s uv' ws' s',
+    uni_inv e ms uv ws -> goRuni w x ig unesc em D ms k uv ws s = Ok (uv', ws', s') -> uni_inv e ms uv' ws'.
+  Proof.
+    induction k as [|k IH]; intros uv ws s uv' ws' s' Hi H; [discriminate|]. cbn [goRuni] in H.
+    destruct (check_not_at_end s); cbn [bind] in H; try discriminate.
+    destruct (idx s) as [c| |]; cbn [bind] in H; try discriminate.
+    destruct (Byte.eqb c x29).
+    { inversion H; subst. exact Hi. }
+    destruct (read_field_name unesc em s) as [[key s1]| |]; cbn [bind] in H; try discriminate.
+    destruct (enter_map key (r_tr s1)) as [tr1| |]; cbn [bind] in H; try discriminate.
+    destruct ws; [discriminate|].
+    destruct (index_of key (map fst ms) 0) as [j|] eqn:I; [|discriminate].
+    destruct (index_of_alias _ _ _ I) as [mt [Hm Hj]]. rewrite Hm in H.
+    destruct (D mt (with_tr s1 tr1)) as [[v s2]| |] eqn:E; cbn [bind] in H; try discriminate.
+    assert (Hi' : uni_inv e ms (set_nth j (Some v) uv) true).
+    { eapply uni_inv_set; [exact Hi | exact Hm | exact Hj | eapply HD; exact E]. }
+    destruct (read_after (with_tr s2 (pop (r_tr s2)))) as [[s3|s3]| |]; cbn [bind] in H; try discriminate.
+    - eapply IH; [|exact H]. exact Hi'.
+    - inversion H; subst. exact Hi'.
+  Qed.
+
+  (* once a member is set, the only continuation the union reader accepts is the closing parenthesis *)
+  Lemma goRuni_after_set ms k uv s r :
+    goRuni w x ig unesc em D ms (S k) uv true s = Ok r ->
+    exists c, idx s = Ok c /\ Byte.eqb c x29 = true /\ r = (uv, true, advance 1 s).
+  Proof.
+    cbn [goRuni]. destruct (check_not_at_end s); cbn [bind]; try discriminate.
+    destruct (idx s) as [c| |]; cbn [bind]; try discriminate.
+    destruct (Byte.eqb c x29) eqn:Ec.
+    - intros H; inversion H. exists c. auto.
+    - destruct (read_field_name unesc em s) as [[key s1]| |]; cbn [bind]; try discriminate.
+      destruct (enter_map key (r_tr s1)) as [tr1| |]; cbn [bind]; discriminate.
+  Qed.
+
+  Lemma stepR_dvalid f t s v s' : stepR e w x ig pF DJ unesc em lp qr D f t s = Ok (v, s') -> dvalid e t v.
+  Proof.
+    unfold stepR. destruct t as [p|syms|sz|n|t'|t'].
+    - intros _. constructor.
+    - destruct (read_string unesc em s) as [[x0 s0]| |]; cbn [bind]; try discriminate. intros H; inversion H; subst.
+      destruct (enum_value_bound syms x0) as [k [-> Hk]]. constructor. exact Hk.
+    - destruct (read_string unesc em s) as [[x0 s0]| |]; cbn [bind]; try discriminate.
+      destruct (Nat.eqb (length x0) sz) eqn:L; [|discriminate]. apply Nat.eqb_eq in L. intros H; inversion H; subst.
+      constructor. reflexivity.
+    - destruct (lookup e n) as [[incs fs|nullable ms]|] eqn:L; [| |discriminate].
+      + cbv zeta. destruct (negb (at_map s)); [discriminate|].
+        destruct (goRrec e w x ig unesc em lp D n f (zero_value e (S (S (length e))) (TRef n))
+                    (required_fields e (S (length e)) n) (advance 1 s)) as [[[rv rem] s1]| |] eqn:G; cbn [bind]; try discriminate.
+        assert (Hr : dvalid e (TRef n) rv).
+        { eapply goRrec_dvalid; [|exact G]. eapply zero_rec_dvalid; exact L. }
+        intros H. inversion H; subst. clear H.
+        match goal with |- dvalid _ _ (if ?c then _ else _) => destruct c end; [exact Hr|].
+        eapply fill_defaults_dvalid; eassumption.
+      + destruct (negb (at_map s)); [discriminate|].
+        destruct (goRuni w x ig unesc em D ms f (map (fun _ => None) ms) false (advance 1 s)) as [[[uv ws] s1]| |] eqn:G;
+          cbn [bind]; try discriminate.
+        destruct (goRuni_inv ms _ _ _ _ _ _ _ (uni_inv_init e ms) G) as [Hl [Hc Hk]].
+        destruct (negb nullable && negb ws) eqn:C; [discriminate|]. intros H; inversion H; subst.
+        eapply DV_union; [exact L | exact Hl | | exact Hk].
+        unfold union_ok. rewrite Hc. destruct ws; [left; reflexivity|]. right. split; [|reflexivity].
+        destruct nullable; [reflexivity | discriminate].
+    - destruct (negb (at_array lp s)); [discriminate|]. cbv zeta.
+      destruct (idx (advance (length lp) s)) as [c| |]; cbn [bind]; try discriminate.
+      destruct (Byte.eqb c x29).
+      + intros H; inversion H. constructor. constructor.
+      + intros H. eapply goRarr_dvalid; [|exact H]. constructor.
+    - destruct (negb (at_map s)); [discriminate|].
+      intros H. eapply goRmap_dvalid; [|exact H]. constructor.
+  Qed.
+End DecRValid.
+
+(* THEOREM (decoded values are valid, ROR2) *)
+Theorem decR_dvalid : forall e w x ig pF unesc em lp qr fuel t s v s',
+  decR e w x ig pF unesc em lp qr fuel t s = Ok (v, s') -> dvalid e t v.
+Proof.
+  intros e w x ig pF unesc em lp qr fuel. induction fuel as [|f IH]; intros t s v s' H; [discriminate|].
+  rewrite decR_unfold in H. eapply stepR_dvalid; [| |exact H].
+  - intros top t0 d tr v0 tr'. apply decJ_dvalid.
+  - exact IH.
+Qed.
+
+Theorem union_decoded_constraint_R : forall e w x ig pF unesc em lp qr fuel n nullable ms s v s',
+  lookup e n = Some (DUnion nullable ms) -> decR e w x ig pF unesc em lp qr fuel (TRef n) s = Ok (v, s') ->
+  exists uv, v = VUnion uv /\ length uv = length ms /\ union_ok nullable uv.
+Proof.
+  intros e w x ig pF unesc em lp qr fuel n nullable ms s v s' L H. apply decR_dvalid in H.
+  inversion H; subst; [congruence|]. assert (nullable0 = nullable /\ ms0 = ms) as [-> ->] by (split; congruence).
+  eexists; split; [reflexivity|]. split; assumption.
+Qed.
+
+(* a second member after a set one is never accepted by the cursor-level union reader *)
+Theorem union_second_member_R : forall e w x ig pF unesc em lp qr f ms k uv s r,
+  goRuni w x ig unesc em (decR e w x ig pF unesc em lp qr f) ms (S k) uv true s = Ok r ->
+  exists c, idx s = Ok c /\ Byte.eqb c x29 = true /\ r = (uv, true, advance 1 s).
+Proof. intros until r. apply goRuni_after_set. Qed.
+
+Theorem unknown_enum_symbol_R : forall e w x ig pF unesc em lp qr f syms s v s',
+  decR e w x ig pF unesc em lp qr (S f) (TEnum syms) s = Ok (v, s') ->
+  exists text, read_string unesc em s = Ok (text, s') /\ v = enum_value syms text /\
+    ((~ In text syms /\ v = VEnum 0) \/
+     (exists i, v = VEnum (S i) /\ nth_error syms i = Some text /\ forall m, m < i -> nth_error syms m <> Some text)).
+Proof.
+  intros until s'. rewrite decR_unfold. unfold stepR.
+  destruct (read_string unesc em s) as [[text s0]| |]; cbn [bind]; try discriminate.
+  intros H; inversion H; subst. exists text. split; [reflexivity|]. split; [reflexivity|].
+  destruct (enum_value_spec syms text) as [[Hn ->]|[i [-> [Hi Hf]]]]; [left; auto | right; exists i; auto].
+Qed.
+
+Theorem fixed_size_enforced_R : forall e w x ig pF unesc em lp qr f n s,
+  decR e w x ig pF unesc em lp qr (S f) (TFixed n) s =
+  (do r <- read_string unesc em s;
+   if Nat.eqb (length (fst r)) n then Ok (VFixed (fst r), snd r) else Err EFixedSize).
+Proof.
+  intros. rewrite decR_unfold. unfold stepR. destruct (read_string unesc em s) as [[b s0]| |]; reflexivity.
+Qed.
+
+Theorem fixed_ok_size_R : forall e w x ig pF unesc em lp qr f n s v s',
+  decR e w x ig pF unesc em lp qr (S f) (TFixed n) s = Ok (v, s') ->
+  exists b, read_string unesc em s = Ok (b, s') /\ v = VFixed b /\ length b = n.
+Proof.
+  intros until s'. rewrite fixed_size_enforced_R. destruct (read_string unesc em s) as [[b s0]| |]; cbn [bind fst snd]; try discriminate.
+  destruct (Nat.eqb (length b) n) eqn:L; [|discriminate]. apply Nat.eqb_eq in L. intros H; inversion H; subst.
+  exists b. auto.
+Qed.
+
+(* ==================================================================================================================== *)
+(* 10. Why [dvalid] must allow the zero value in required slots: the unconditional statement is false                    *)
+(* ==================================================================================================================== *)
+(* some union struct, anywhere in the value, has no member set *)
+Fixpoint has_empty_union (v : value) : bool :=
+  let ob := fun o : option value => match o with Some y => has_empty_union y | None => false end in
+  match v with
+  | VRec incs fs => existsb has_empty_union incs || existsb ob fs
+  | VUnion ms => Nat.eqb (count_set ms) 0 || existsb ob ms
+  | VArr l => existsb has_empty_union l
+  | VMap es => existsb (fun kv : bytes * value => let '(_, y) := kv in has_empty_union y) es
+  | _ => false
+  end.
+
+(* "a document the JSON decoder ACCEPTS (no error, no missing-field report) never yields a non-nullable union with no member" *)
+Definition decoded_unions_never_empty_full : Prop :=
+  forall e w x ig pF fuel t data v,
+    (forall n nullable ms, lookup e n = Some (DUnion nullable ms) -> nullable = false) ->
+    decode_json e w x ig pF fuel t data = DOk v -> has_empty_union v = false.
+
+(* record R { u : U (required) }, union U { a : int } (not nullable); the type decoded is array<R>; the document is [{}] *)
+Definition cx11_env : env :=
+  [DRecord [] [{| f_name := [x75]; f_ty := TRef 1; f_opt := Required |}]; DUnion false [([x61], TPrim PInt)]].
+Definition cx11_doc : bytes := [x5b; x7b; x7d; x5d].
+
+(* The required union field is absent; its absence is recorded in the tracker, but a top-level value that is not a record never
+   raises the missing-fields report (defect D33 of the pinned tree), so the decode is accepted and the caller receives a
+   non-nullable union with no member set. *)
+Theorem decoded_unions_never_empty_refuted :
+  exists e w x ig pF fuel t data v,
+    (forall n nullable ms, lookup e n = Some (DUnion nullable ms) -> nullable = false) /\
+    decode_json e w x ig pF fuel t data = DOk v /\ has_empty_union v = true.
+Proof.
+  exists cx11_env, [x2a], ps_empty, 0, (fun _ _ => None), 10, (TArray (TRef 0)), cx11_doc,
+         (VArr [VRec [] [Some (VUnion [None])]]).
+  split; [|split; vm_compute; reflexivity].
+  intros [|[|[|n]]] nullable ms H; simpl in H; inversion H; reflexivity.
+Qed.
